@@ -102,22 +102,26 @@ def norm3_sq(v):
     return v[0] * v[0] + v[1] * v[1] + v[2] * v[2]
 
 
-def is_SO3_exact(r):
-    """R^T R = I and det R = 1 (exact group membership), as a conjunction of equalities"""
+def _eq(a, b):
+    return a == b
+
+
+def is_SO3_exact(r, eq=_eq):
+    """R^T R = I and det R = 1 (exact group membership), as a list of equalities"""
     conds = []
     for i in range(3):
         for j in range(3):
-            conds.append(sum((r[k, i] * r[k, j] for k in range(3)), 0) == (1 if i == j else 0))
+            conds.append(eq(sum((r[k, i] * r[k, j] for k in range(3)), 0), (1 if i == j else 0)))
     for i in range(3):
         for j in range(3):
-            conds.append(sum((r[i, k] * r[j, k] for k in range(3)), 0) == (1 if i == j else 0))
-    conds.append(det3(r) == 1)
+            conds.append(eq(sum((r[i, k] * r[j, k] for k in range(3)), 0), (1 if i == j else 0)))
+    conds.append(eq(det3(r), 1))
     return conds
 
 
-def is_SE3_exact(p):
+def is_SE3_exact(p, eq=_eq):
     r = mk(rot(p))
-    return is_SO3_exact(r) + [p[3, 0] == 0, p[3, 1] == 0, p[3, 2] == 0, p[3, 3] == 1]
+    return is_SO3_exact(r, eq) + [eq(p[3, 0], 0), eq(p[3, 1], 0), eq(p[3, 2], 0), eq(p[3, 3], 1)]
 
 
 def angle(r):
